@@ -250,6 +250,7 @@ fn worker_seed(ctx: &Ctx, part: &str, worker: usize) -> [u8; 32] {
 thread_local! {
     pub static WORKER: std::cell::Cell<usize> = const { std::cell::Cell::new(0) };
     static LAST_PANIC: std::cell::RefCell<Option<String>> = const { std::cell::RefCell::new(None) };
+    static GUARD_DEPTH: std::cell::Cell<usize> = const { std::cell::Cell::new(0) };
 }
 
 pub fn worker_id() -> usize {
@@ -270,13 +271,20 @@ pub fn install_panic_hook() {
         } else {
             "<non-string panic payload>".into()
         };
+        if GUARD_DEPTH.with(|d| d.get()) == 0 {
+            // a panic outside `guard` is a bug in the harness itself: make it visible
+            eprintln!("HARNESS PANIC at {loc}: {msg}");
+        }
         LAST_PANIC.with(|p| *p.borrow_mut() = Some(format!("panicked at {loc}: {msg}")));
     }));
 }
 
 /// Run `f`, turning a panic into `Err(description)`.
 pub fn guard<T>(f: impl FnOnce() -> T) -> Result<T, String> {
-    match panic::catch_unwind(AssertUnwindSafe(f)) {
+    GUARD_DEPTH.with(|d| d.set(d.get() + 1));
+    let r = panic::catch_unwind(AssertUnwindSafe(f));
+    GUARD_DEPTH.with(|d| d.set(d.get() - 1));
+    match r {
         Ok(v) => Ok(v),
         Err(_) => Err(LAST_PANIC
             .with(|p| p.borrow_mut().take())
